@@ -301,7 +301,7 @@ func c01Replay(e *core.Env, data json.RawMessage) (bool, string) {
 func init() {
 	core.Register(&core.Check{
 		ID: "C01", Level: "model_checking", Run: c01Run, Replay: c01Replay,
-		QuickBudget: 100 * time.Second, ThoroughBudget: 14 * time.Minute,
+		QuickBudget: 150 * time.Second, ThoroughBudget: 14 * time.Minute,
 		Rule: "every sequence of <= N body directives (positions in USD/AAPL/EUR on assets and a liability, sale to zero, income collision with a valuation account, negative transfer, two-commodity trade, monthly accrual, six price declarations incl. inverse and chained) x 3 dates, " +
 			"x valuation {none,CHF,USD} x --from/--to x 6 intervals x --last x --diff x --close, text and CSV; invariant: every cell of every Delta row is zero; non-trivial = valued runs that succeed",
 		Assumptions: []string{"valued runs that fail on a missing price are outside the property; they must fail cleanly and agree with the reference's missing-price rule"},
